@@ -54,7 +54,7 @@ stats = D.stats
 
 
 def gen_cases(tier, seed):
-  return D.gen_cases(PID, tier, seed, 260, 5000)
+  return D.gen_cases(PID, tier, seed, 600, 5000)
 
 
 def search_cases(tier, seed, diverging):
